@@ -12,6 +12,15 @@ Inductive pend := PClean | PShort | PNeg.
 (* a parsed frame also remembers how many bytes its header occupied (for the minimal-encoding clause) *)
 Record pframe := { pf_hdr : hdr; pf_payload : bytes; pf_hlen : nat }.
 
+(* bytes the header of the frame at the front of [inp] occupied: 2 + the extension actually used + key *)
+Definition hdr_len (inp : bytes) (h : hdr) : nat :=
+  match inp with
+  | _ :: b1 :: _ => let l7 := b1 mod 128 in
+                    let ext := if l7 =? 126 then 2%nat else if l7 =? 127 then 8%nat else 0%nat in
+                    (2 + ext + (if h_masked h then 4 else 0))%nat
+  | _ => 0%nat
+  end.
+
 Fixpoint parse_frames (fuel : nat) (inp : bytes) : list pframe * pend :=
   match fuel with
   | O => ([], PShort)
@@ -23,12 +32,13 @@ Fixpoint parse_frames (fuel : nat) (inp : bytes) : list pframe * pend :=
       | DecShort => ([], PShort)
       | DecNeg => ([], PNeg)
       | DecOk h rest =>
-        if N.of_nat (length rest) <? h_plen h then ([], PShort) else
-        let n := N.to_nat (h_plen h) in
-        let raw := firstn n rest in
-        let p := if h_masked h then mask_spec (h_key h) raw else raw in
-        let '(fs, e) := parse_frames f (skipn n rest) in
-        ({| pf_hdr := h; pf_payload := p; pf_hlen := length inp - length rest |} :: fs, e)
+        match take_N rest (h_plen h) with
+        | None => ([], PShort)
+        | Some (raw, rest') =>
+          let p := if h_masked h then mask_spec (h_key h) raw else raw in
+          let '(fs, e) := parse_frames f rest' in
+          ({| pf_hdr := h; pf_payload := p; pf_hlen := hdr_len inp h |} :: fs, e)
+        end
       end
     end
   end.
